@@ -64,7 +64,23 @@ def gen_(rng, i, tier):
                     edits.append({"e": "aug", "k": [C.enc(x) for x in k], "v": [rng.choice([-2, 1, 3]), 1]})
                 else:
                     edits.append({"e": "imul", "okind": "scalar", "c": [rng.choice([2, -1, 3]), 1]})
-        return {"op": "method", "kind": kind, "terms": G.jraw(t), "meth": rng.randrange(4), "edits": edits, "remap": gen_remap(rng)}
+        if any(k for k, _ in t) and rng.random() < 0.25:
+            # a variable disappears (its terms are assigned zero), then refresh(): the numbering is derived afresh
+            l = rng.choice(sorted({x for k, _ in t for x in k}, key=C.enc))
+            for k in list(dict.fromkeys(k for k, _ in t if l in k)):
+                edits.append({"e": "set", "k": [C.enc(x) for x in k], "v": [0, 1]})
+            edits.append({"e": "refresh"})
+        remap = gen_remap(rng)
+        post = []
+        if remap and rng.random() < 0.5:
+            # after the user's numbering: a term with a label the model has not seen (it takes the next free integer)
+            used = {x for k, _ in t for x in k}
+            fresh = [l for l in (list(range(8)) + C.POOL) if l not in used]
+            if fresh:
+                nl = rng.choice(fresh)
+                k = [nl] + ([rng.choice(sorted(used, key=C.enc))] if used and rng.random() < 0.6 else [])
+                post.append({"e": rng.choice(["set", "aug"]), "k": [C.enc(x) for x in k], "v": [rng.choice([-3, -1, 2, 5]), 1]})
+        return {"op": "method", "kind": kind, "terms": G.jraw(t), "meth": rng.randrange(4), "edits": edits, "remap": remap, "post": post}
     if r < 0.80:
         kind = rng.choice(["QUBO", "QUSO", "PUBO", "PUSO", "PCBO", "PCSO"])
         quad = kind in QUAD
@@ -145,6 +161,9 @@ def run_impl(case):
                 for e in case["edits"]:
                     obj = c14.apply(obj, e)
             installed = apply_remap(obj, case.get("remap"))
+            for e in case.get("post", []):
+                from props import c14
+                obj = c14.apply(obj, e)
             snap = C.snapshot(obj)
             r = getattr(obj, METH[case["meth"]])()
             if C.snapshot(obj) != snap:
@@ -221,8 +240,9 @@ def literal(case, out):
         cin = "Conv %d%%nat %s %s" % (case["fn"], C.optc(case["src"], lambda k: KIND[k]), tl(case["terms"]))
     elif op == "method":
         from props import c14
-        cin = "Method %s %s [%s] %s %d%%nat" % (KIND[case["kind"]], tl(case["terms"]),
-                                               "; ".join(c14.edit_lit(e) for e in case.get("edits", [])), mp_lit(out.get("remap")), case["meth"])
+        cin = "Method %s %s [%s] %s [%s] %d%%nat" % (KIND[case["kind"]], tl(case["terms"]),
+                                                    "; ".join(c14.edit_lit(e) for e in case.get("edits", [])), mp_lit(out.get("remap")),
+                                                    "; ".join(c14.edit_lit(e) for e in case.get("post", [])), case["meth"])
     elif op == "convsol":
         spin_model = case["kind"] in SPIN
         flag = spin_model if case["flag"] is None else case["flag"]
